@@ -245,3 +245,21 @@ pub fn rejected_record(p: &Parsed, i: usize) -> Option<RecordBuf> {
     *r.quality_scores_mut() = noodles_sam::alignment::record_buf::QualityScores::from(vec![30u8]);
     Some(r)
 }
+
+/// `sam::io::writer::Builder::build_from_writer`: a `Writer<Box<dyn Write>>` over a BufWriter or a
+/// BGZF writer. The only finishing call it offers is `get_mut().flush()`; the EOF block of the BGZF
+/// form is written when the writer is dropped.
+pub fn write_sam_builder<W: Write>(w: W, p: &Parsed, bgzf: bool) -> io::Result<()> {
+    use noodles_sam::io::{CompressionMethod, writer::Builder};
+    let mut w = Builder::default()
+        .set_compression_method(if bgzf { CompressionMethod::Bgzf } else { CompressionMethod::None })
+        .build_from_writer(w);
+    w.write_header(&p.header)?;
+    for r in &p.records {
+        w.write_alignment_record(&p.header, r)?;
+    }
+    w.finish(&p.header)?;
+    w.get_mut().flush()?;
+    super::kinds::call_before_drop();
+    Ok(())
+}
